@@ -188,7 +188,7 @@ fn proof_prog<G: CurveTag>(prog: crate::program::Program, col: &mut Collector, p
         {
             let mut u = vec![];
             proof.serialize_uncompressed(&mut u).ok();
-            let ups = 2 * G::SC; // one uncompressed point
+            let ups = G::generator().uncompressed_size(); // one uncompressed point: x (32 bytes), then y (with the flags)
             let npts = 11 + 2 * k;
             for i in 0..npts {
                 let off = if i < 11 { i * ups } else if i < 11 + k { 11 * ups + 3 * G::SC + 8 + (i - 11) * ups } else { 11 * ups + 3 * G::SC + 8 + k * ups + 8 + (i - 11 - k) * ups };
@@ -197,7 +197,7 @@ fn proof_prog<G: CurveTag>(prog: crate::program::Program, col: &mut Collector, p
                 }
                 let mut b = u.clone();
                 // second coordinate, lowest byte
-                let yb = off + G::SC;
+                let yb = off + 32;
                 b[yb] = b[yb].wrapping_add(1);
                 let single = G::deserialize_uncompressed_unchecked(&b[off..off + ups]);
                 let off_curve = match &single {
